@@ -87,6 +87,9 @@ func handleZADD(params internal.HandlerFuncParams) ([]byte, error) {
 					Score: Score(s),
 				})
 			}
+			if !slices.Contains([]string{"-inf", "+inf"}, strings.ToLower(score.(string))) {
+				return nil, errors.New("invalid score in score/member list")
+			}
 		case float64:
 			s, _ := score.(float64)
 			members = append(members, MemberParam{
@@ -139,32 +142,38 @@ func handleZADD(params internal.HandlerFuncParams) ([]byte, error) {
 		}
 	}
 
+	// The flags apply to a new key exactly as they do to an existing one (the new set starts empty).
+	set := NewSortedSet([]MemberParam{})
 	if keyExists {
-		// Key exists
-		set, ok := params.GetValues(params.Context, []string{key})[key].(*SortedSet)
+		var ok bool
+		set, ok = params.GetValues(params.Context, []string{key})[key].(*SortedSet)
 		if !ok {
 			return nil, fmt.Errorf("value at %s is not a sorted set", key)
 		}
-		count, err := set.AddOrUpdate(members, updatePolicy, comparison, changed, incr)
-		if err != nil {
-			return nil, err
-		}
-		// If INCR option is provided, return the new score value
-		if incr != nil {
-			m := set.Get(members[0].Value)
-			return []byte(fmt.Sprintf("+%f\r\n", m.Score)), nil
-		}
-
-		return []byte(fmt.Sprintf(":%d\r\n", count)), nil
 	}
 
-	// Key does not exist.
-	set := NewSortedSet(members)
-	if err = params.SetValues(params.Context, map[string]interface{}{key: set}); err != nil {
+	count, err := set.AddOrUpdate(members, updatePolicy, comparison, changed, incr)
+	if err != nil {
 		return nil, err
 	}
 
-	return []byte(fmt.Sprintf(":%d\r\n", set.Cardinality())), nil
+	if !keyExists && set.Cardinality() > 0 {
+		if err = params.SetValues(params.Context, map[string]interface{}{key: set}); err != nil {
+			return nil, err
+		}
+	}
+
+	// If INCR option is provided, return the score the member has now (nil when it is not in the set,
+	// i.e. XX kept a new member out).
+	if incr != nil {
+		m := set.Get(members[0].Value)
+		if !m.Exists {
+			return []byte("$-1\r\n"), nil
+		}
+		return []byte(fmt.Sprintf("+%s\r\n", strconv.FormatFloat(float64(m.Score), 'f', -1, 64))), nil
+	}
+
+	return []byte(fmt.Sprintf(":%d\r\n", count)), nil
 }
 
 func handleZCARD(params internal.HandlerFuncParams) ([]byte, error) {
@@ -444,7 +453,7 @@ func handleZINCRBY(params internal.HandlerFuncParams) ([]byte, error) {
 	if _, err = set.AddOrUpdate(
 		[]MemberParam{
 			{Value: member, Score: increment}},
-		"xx",
+		nil,
 		nil,
 		nil,
 		"incr"); err != nil {
